@@ -1,5 +1,6 @@
 import Pyxv.Model.Json
 import Pyxv.Model.Warnings
+import Pyxv.Model.WarningsExt
 import Pyxv.Model.WarningsItext
 import Pyxv.Model.OpsItext
 /-! Driver operations for the warnings slice (C20). -/
@@ -73,6 +74,14 @@ def opsWarn (op : String) (j : Json) : Option (Except String Json) :=
   | "warn.header" => some do
       let h ← getStr j "header"
       let (al, cols) := if getStrD j "sheet" "survey" = "survey".toList then (surveyAliases, surveyCols) else (listAliases, choicesCols)
+      -- phase 8: the complete `process_header` (single-colon delimiter, `jr:` rewrite)
+      pure (match processHeader2 (getBoolD j "use_dc" false) al cols h with
+        | .ok t => jstrs t
+        | .raises => Json.arr #["<exception>", "IndexError"]
+        | .outside => Json.null)
+  | "warn.header_old" => some do
+      let h ← getStr j "header"
+      let (al, cols) := if getStrD j "sheet" "survey" = "survey".toList then (surveyAliases, surveyCols) else (listAliases, choicesCols)
       pure (match processHeader (getBoolD j "use_dc" false) al cols h with
         | some t => jstrs t
         | none => Json.null)
@@ -103,11 +112,13 @@ def opsWarn (op : String) (j : Json) : Option (Except String Json) :=
   | "warn.workbook" => some do
       let wb ← wbOfJson j
       if !wb.sheetNames.all isAscii then pure (Json.mkObj [("outcome", "unsupported"), ("why", "non-ASCII sheet name")]) else
-      match workbookToJson lowerAscii wb [] with
+      -- phase 8: `workbookToJson2` = `convertOn` on the view of the complete header processing
+      match workbookToJson2 lowerAscii wb [] with
       | .error e => pure (stopToJson e)
       | .ok (res, ws) =>
-        let spec := match Spec.workbookDue levenshtein lowerAscii wb with | .ok d => d | .error _ => []
+        let spec := match Spec.workbookDue2 levenshtein lowerAscii wb with | .ok d => d | .error _ => []
         pure (Json.mkObj [("outcome", "ok"), ("model", wsToJson ws), ("spec", wsToJson spec),
+          ("old_fragment", Json.bool (match workbookToJson lowerAscii wb [] with | .ok _ => true | .error (.error _ _) => true | .error (.unsupported _) => false)),
           ("or_other", Json.bool res.orOther),
           ("kept", Json.arr (res.kept.map fun (n, t) => Json.arr #[n, jstr t]).toArray)])
   | _ => none
